@@ -51,8 +51,8 @@ def _case(draw, tier):
     for _ in range(n_sessions):
         runs = draw(
             st.lists(st.tuples(st.integers(0, 2), history.st_count(eps),
-                               st.sampled_from([0, 0, 1, 2, 2, 3, 3, 4,
-                                                5])).map(list),
+                               st.sampled_from([0, 0, 1, 2, 2, 3, 3, 4, 4, 5,
+                                                6, 6, 7, 8])).map(list),
                      min_size=1,
                      max_size=7))
         ops.append({
